@@ -25,8 +25,13 @@ def main():
     props = [json.loads(l)["id"] for l in open(f"{ROOT}/properties.jsonl") if l.strip()]
     checks = []
     claimed = set()
+    allow = None
+    if os.path.exists(f"{ROOT}/kv/claimed.txt"):
+        allow = set(open(f"{ROOT}/kv/claimed.txt").read().split())
     for path in sorted(glob.glob(f"{ROOT}/kv/checks/C*.py")):
         pid = os.path.basename(path)[:-3]
+        if allow is not None and pid not in allow:
+            continue
         m = importlib.import_module(f"kv.checks.{pid}")
         meta = getattr(m, "META", None)
         if not meta or meta.get("disabled"):
